@@ -41,6 +41,8 @@ ATOMS = [
     "d = [(e := q + a) for q in range(2)]\nb = b + e",            # 20 walrus inside a comprehension binds in the function
     "if p:\n    if p > 1:\n        b = b + 1\n    a = 7",          # 21 nested conditional, then a rebinding in the outer one
     "if p == 1:\n    return\na += 1",                              # 22 guard clause with a bare return
+    "if p: a = 5",                                                # 23 conditional write, compound statement on one line
+    "for i in range(p): b = i + 4",                               # 24 loop that may not run, on one line
 ]
 
 HOSTS = {
@@ -259,6 +261,14 @@ def regions(src, atom_ids, host):
                         before = [n for n in ast.walk(loop) if isinstance(n, ast.Name) and isinstance(n.ctx, ast.Load) and n.lineno < run[0].lineno]
                         if stores & {n.id for n in before}:
                             feats.append("region:in-a-loop-and-assigns-a-variable-read-earlier-in-the-loop")
+                # (c) a name that has no value before the region, is bound in the region only inside a compound statement
+                #     (a loop target, a branch) and is read by the statements after the region (after they rebind it)
+                if is_top:
+                    cond = {n.id for st in run if hasattr(st, "body") for n in ast.walk(st) if isinstance(n, ast.Name) and isinstance(n.ctx, ast.Store)}
+                    earlier = {n.id for st in lst[:i] for n in ast.walk(st) if isinstance(n, ast.Name) and isinstance(n.ctx, ast.Store)} | {"p", "self", "cls"}
+                    later = {n.id for st in lst[j + 1:] for n in ast.walk(st) if isinstance(n, ast.Name) and isinstance(n.ctx, ast.Load)}
+                    if (cond - definite - earlier) & later:
+                        feats.append("region:binds-a-new-name-only-inside-a-compound-statement-and-later-statements-rebind-and-read-it")
                 if host == "module" or host.startswith("flat"):
                     # module-level code: every variable is a global; does the region assign one that it also reads,
                     # or that it assigns only on some paths / in a nested block?
@@ -321,6 +331,9 @@ def regions(src, atom_ids, host):
                                 bound = {n.id for g in a.generators for n in ast.walk(g.target) if isinstance(n, ast.Name)}
                                 if used & bound and not any(c is v for g in a.generators[:1] for c in ast.walk(g.iter)):
                                     feats.append("expr:uses-name-bound-by-lambda-or-comprehension")
+                            if (isinstance(a, ast.For) and a.body[0].lineno == a.lineno and any(c is v for b_ in a.body for c in ast.walk(b_))
+                                    and used & {n.id for n in ast.walk(a.target) if isinstance(n, ast.Name)}):
+                                feats.append("expr:on-the-header-line-of-a-one-line-for-and-uses-its-target")
                             if isinstance(a, ast.ExceptHandler) and a.type is not None and any(c is v for c in ast.walk(a.type)):
                                 feats.append("expr:in-except-type")
                         out.append(("expr", start, end, feats))
@@ -330,7 +343,7 @@ def regions(src, atom_ids, host):
 class C03(Check):
     pid = "C03"
     level = "exploration"
-    rule = ("cases = host bodies: every sequence of n statement atoms (23 atoms) in a function host, a method host, a module-level host and a class whose classmethod/staticmethod/regular sibling methods repeat the body; "
+    rule = ("cases = host bodies: every sequence of n statement atoms (25 atoms) in a function host, a method host, a module-level host and a class whose classmethod/staticmethod/regular sibling methods repeat the body; "
             "evaluations = one refactoring request per (body, region, refactoring, options): regions = every contiguous statement "
             "run at every nesting level + every sub-expression; ExtractMethod x similar{F,T} x global_{F,T} (function host) / "
             "kind{None,staticmethod?} and ExtractVariable x similar{F,T} for expressions; each performed result is compiled and "
